@@ -916,6 +916,60 @@ func TestVerifSendBatch(t *testing.T) {
 			}
 		}
 	}
+	// ---- results with the smallest cells there are (one-byte row, one-byte family, empty qualifier and / or empty value: 26-27
+	// bytes a cell) at the end of the cellblock of a multi response: a well-formed response like any other - every call
+	// gets its answer, the mutations of the batch are executed once
+	for ci, tiny := range []verifsim.KV{
+		{Row: []byte("a"), Family: []byte("f"), Qualifier: []byte("q"), Timestamp: 1, Type: 4, Value: nil},
+		{Row: []byte("a"), Family: []byte("f"), Qualifier: nil, Timestamp: 1, Type: 4, Value: []byte("v")},
+		{Row: []byte("a"), Family: []byte("f"), Qualifier: nil, Timestamp: 1, Type: 4, Value: nil},
+	} {
+		name := fmt.Sprintf("smallest-cells-at-the-end-of-the-cellblock/%d", ci)
+		var kinds []string
+		execs := map[string]int{}
+		verifsim.Bubble(t, func(t *testing.T) {
+			tr := &verifsim.Trace{}
+			cl := verifsim.NewCluster(tr)
+			cl.AddServer("ms:1")
+			cl.AddServer("s1")
+			cl.CreateTable("t", nil, []string{"s1"})
+			cl.PutRow("t", []byte("a"), []verifsim.KV{tiny})
+			c := newSimClient(cl, RpcQueueSize(4), FlushInterval(time.Millisecond))
+			g0, _ := hrpc.NewGet(context.Background(), []byte("t"), []byte("zz"))
+			c.Get(g0)
+			synctest.Wait()
+			vals := map[string]map[string][]byte{"f": {"q": []byte("v")}}
+			p1, _ := hrpc.NewPut(context.Background(), []byte("t"), []byte("b"), vals)
+			i2, _ := hrpc.NewInc(context.Background(), []byte("t"), []byte("c"), map[string]map[string][]byte{"f": {"n": {0, 0, 0, 0, 0, 0, 0, 1}}})
+			g3, _ := hrpc.NewGet(context.Background(), []byte("t"), []byte("a"))
+			ctx, cancel := context.WithTimeout(context.Background(), 2*time.Minute)
+			res, _ := c.SendBatch(ctx, []hrpc.Call{p1, i2, g3})
+			cancel()
+			synctest.Wait()
+			for _, r := range res {
+				kinds = append(kinds, sbKind(r))
+			}
+			cl.Lock()
+			for _, e := range cl.Execs {
+				if e.Row == "b" || e.Row == "c" {
+					execs[e.Row]++
+				}
+			}
+			cl.Unlock()
+			c.Close()
+			time.Sleep(time.Minute)
+			synctest.Wait()
+		})
+		ran++
+		if fmt.Sprint(kinds) != "[ok ok ok]" {
+			rep.bad("batch-results-differ", "%s: SendBatch returned %v for [put b, increment c, get a]; the server answered all three", name, kinds)
+		}
+		for _, k := range []string{"b", "c"} {
+			if execs[k] > 1 {
+				rep.bad("batch-call-executed-twice", "%s: the mutation of row %s was executed %d times (its success had been received)", name, k, execs[k])
+			}
+		}
+	}
 	rep.Scenarios = ran
 	rep.Distinct = ran
 	rep.Extra["scripts_available"] = len(scripts)
